@@ -18,7 +18,11 @@ use serde_json::{json, Value};
 
 use crate::un::fnv;
 
-pub const VERIF: &str = "/verif";
+/// Root of the verification tree. `/verif` unless VERIF_ROOT is set (used for background runs from a
+/// snapshot worktree so that they do not share build output or evidence with the live tree).
+pub fn verif_root() -> String {
+    std::env::var("VERIF_ROOT").unwrap_or_else(|_| "/verif".to_string())
+}
 
 #[derive(Clone, Debug)]
 pub enum Verdict {
@@ -145,7 +149,7 @@ pub struct KnownFinding {
 }
 
 pub fn load_known() -> Vec<KnownFinding> {
-    let p = Path::new(VERIF).join("known_findings.json");
+    let p = Path::new(&verif_root()).join("known_findings.json");
     let txt = match fs::read_to_string(&p) {
         Ok(t) => t,
         Err(_) => return Vec::new(),
@@ -498,7 +502,7 @@ fn mtime_age(p: &Path) -> Option<Duration> {
 }
 
 pub fn write_replay(prop: &str, v: &Violation, seed: u64, tier: &str) -> PathBuf {
-    let dir = Path::new(VERIF).join("replays");
+    let dir = Path::new(&verif_root()).join("replays");
     let _ = fs::create_dir_all(&dir);
     let h = fnv(&[v.sig.as_bytes(), &v.bytes[..]].concat());
     let base = dir.join(format!("{}-{:016x}", prop, h));
@@ -526,7 +530,7 @@ pub fn write_replay(prop: &str, v: &Violation, seed: u64, tier: &str) -> PathBuf
 pub fn run_check(prop: &dyn Prop, tier: &str, seed: u64, pr: &mut Printer) -> i32 {
     let start = Instant::now();
     let scale = scale_from_env();
-    let work = Path::new(VERIF)
+    let work = Path::new(&verif_root())
         .join("work")
         .join(format!("run-{}-{}", prop.id(), std::process::id()));
     let _ = fs::remove_dir_all(&work);
@@ -912,7 +916,7 @@ pub fn run_check(prop: &dyn Prop, tier: &str, seed: u64, pr: &mut Printer) -> i3
         "known_findings_reported": known_lines.len(),
         "inconclusive": inconclusive,
     });
-    let evdir = Path::new(VERIF).join("evidence");
+    let evdir = Path::new(&verif_root()).join("evidence");
     let _ = fs::create_dir_all(&evdir);
     let _ = fs::write(
         evdir.join(format!("{}.json", prop.id())),
